@@ -514,6 +514,26 @@ def run(ctx):
         fam.append((["bin", "%", ["lit", "%s!"], ["this", "s"]], "s"))
         fam.append((["bin", "*", ["this", "s"], ["this", "a"]], "s"))
         fam.append((["bin", "==", ["this", "s"], ["lit", "ab"]], "s"))
+        # sequence-valued operands, where + is not commutative: a str / bytes / list constant on either side of a sequence-valued
+        # path or sub-expression (the reflected operators must keep the operand order)
+        S = ["this", "s"]
+        for lit in ("ab", "", tag(b"ab")):
+            L = ["lit", lit]
+            fam.append((["bin", "+", L, S], "s"))
+            fam.append((["bin", "+", S, L], "s"))
+            fam.append((["bin", "+", L, ["bin", "*", S, A]], "s"))
+            fam.append((["bin", "+", L, ["bin", "*", ["lit", "cd"], A]], "s"))
+            fam.append((["bin", "+", ["bin", "*", A, S], L], "s"))
+            fam.append((["bin", "*", A, ["bin", "+", L, S]], "s"))
+            fam.append((["bin", "+", L, ["bin", "+", S, ["lit", "z"]]], "s"))
+            fam.append((["bin", "==", ["bin", "+", L, S], ["bin", "+", S, L]], "s"))
+        for lit in ([9, 8], []):
+            L = ["lit", lit]
+            fam.append((["bin", "+", L, IT], "items"))
+            fam.append((["bin", "+", IT, L], "items"))
+            fam.append((["bin", "+", L, ["bin", "*", IT, ["lit", 2]]], "items"))
+            fam.append((["fn", "len", ["bin", "+", L, IT]], "items"))
+            fam.append((["bin", "==", ["bin", "+", L, IT], ["bin", "+", IT, L]], "items"))
         for i, (t, kind) in enumerate(fam):
             if not ctx.mine(i):
                 continue
